@@ -643,4 +643,82 @@ example :
       [.Ident, .Sub, .LParen, .Ident, .Sub, .Ident, .RParen] := by
   decide
 
+/-! ### Selector on an integer literal (finding C20-1, repaired in /repo by b2c2f52)
+
+`SelectorExpr.String()` used to print `1.a` for a selector on an int literal (source `1 .a`), which scans
+as the float `1.` followed by `a`. The printer now parenthesises an `*IntLit` operand; the model
+(`Printer.printExpr`, case `.sel (.int ..)`) does the same. -/
+
+open Tengo.Model.Printer in
+/-- **print_selector_int_paren.** The printed form of a selector on an int literal is, byte for byte, the
+printed form of the same selector on the parenthesised literal: `(<lit>).<name>`. -/
+theorem print_selector_int_paren (v : Int) (lit n : Bs) :
+    printExpr (.sel (.int v lit) n) = s "(" ++ lit ++ s ")." ++ n ∧
+    printExpr (.sel (.int v lit) n) = printExpr (.sel (.paren (.int v lit)) n) := by
+  have h : s ")." = s ")" ++ s "." := by decide +kernel
+  refine ⟨by simp [printExpr], ?_⟩
+  simp [printExpr, h, List.append_assoc]
+
+theorem run_parseOperand_int (t : Token) (rest : Toks) (v : Nat) (ht : t.tok = .Int) (hv : parseInt0 t.lit = .ok v) :
+    run (parseOperand fo (t :: rest)) = some (.int v t.lit, rest) := by
+  rw [parseOperand]
+  simp [ht, hv]
+
+theorem run_postfixLoop_sel (x : Expr) (p i : Token) (rest : Toks) (hp : p.tok = .Period) (hi : i.tok = .Ident) :
+    run (postfixLoop fo x (p :: i :: rest)) = run (postfixLoop fo (.sel x i.lit) rest) := by
+  rw [postfixLoop]
+  simp only [hp, hi, beq_self_eq_true, if_true]
+  cases h : postfixLoop fo (Expr.sel x i.lit) rest with
+  | none => simp
+  | some o => obtain ⟨y, r, hr⟩ := o; simp
+
+/-- **parse_print (selector on an int literal, token level).** The token list of the printed form
+`( <int> ) . <name>` parses to the selector on the parenthesised literal and consumes exactly these five
+tokens; without ParenExpr nodes (`strip`) it is the selector on the literal itself, for every legal int
+spelling (`parseInt0 lit = ok v`, see `int_literal_value_*`) and every continuation that cannot extend an
+expression. No exception for int-literal selectors remains in the print → parse claim. `_partial`: token
+level (the scanner on the printed bytes is covered by the `scan`/`print` correspondence streams and the
+reprint searcher). -/
+theorem parse_print_selector_int_partial (lit n : Bs) (v : Nat) (hv : parseInt0 lit = .ok v) (o1 o2 : Nat)
+    (rest : Toks) (hs : Stop0 rest) :
+    ∃ x, run (parseExpr fo (tkn .LParen :: ⟨.Int, lit, o1⟩ :: tkn .RParen :: tkn .Period :: ⟨.Ident, n, o2⟩ :: rest)) =
+        some (x, rest) ∧ x = .sel (.paren (.int v lit)) n ∧ x.strip = .sel (.int v lit) n := by
+  refine ⟨_, ?_, rfl, by simp [Expr.strip]⟩
+  have hstopR : ∀ r, NoPostfix (tkn .RParen :: r) := fun r =>
+    ⟨by show Tok.RParen ≠ _; decide, by show Tok.RParen ≠ _; decide, by show Tok.RParen ≠ _; decide⟩
+  -- inner expression `<int>` up to `)`
+  have hin : ∀ r, run (parseExpr fo (⟨.Int, lit, o1⟩ :: tkn .RParen :: r)) = some (.int v lit, tkn .RParen :: r) := by
+    intro r
+    rw [run_parseExpr, run_parseBinary, run_parseUnary_cons]
+    have hu : isUnaryOp (Tok.Int) = false := by decide
+    simp only [hu, Bool.false_eq_true, if_false]
+    rw [run_parsePrimary, run_parseOperand_int fo ⟨.Int, lit, o1⟩ _ v rfl hv]
+    simp only
+    rw [run_postfixLoop_stop fo _ _ (hstopR r)]
+    simp only
+    rw [binLoop_stop fo 1 _ _ (by show Tok.RParen.prec < 1; decide)]
+    simp [tkn]
+  rw [run_parseExpr, run_parseBinary, run_parseUnary_cons]
+  have hu : isUnaryOp (tkn .LParen).tok = false := by decide
+  simp only [hu, Bool.false_eq_true, if_false]
+  rw [run_parsePrimary, run_parseOperand_lparen fo (tkn .LParen) _ rfl, hin]
+  have hr : (tkn .RParen).tok = .RParen := rfl
+  simp only [hr, if_true]
+  rw [run_postfixLoop_sel fo _ (tkn .Period) ⟨.Ident, n, o2⟩ rest rfl rfl, run_postfixLoop_stop fo _ _ hs.1]
+  simp only
+  rw [binLoop_stop fo 1 _ _ (by have := hs.2.1; omega)]
+  cases rest with
+  | nil => rfl
+  | cons t r1 =>
+    have hq : t.tok ≠ .Question := hs.2.2
+    simp [hq]
+
+/-- Non-vacuity: `(0o7).F` followed by EOF — the spelling of the first disagreement seen after the repair. -/
+example : parseInt0 [48, 111, 55] = .ok 7 ∧ Stop0 [tkn .EOF] := by
+  refine ⟨by decide, ⟨by decide, by decide, by decide⟩, by decide, by decide⟩
+
+open Tengo.Model.Printer in
+example : printFile (.cons (.expr (.sel (.int 7 [48, 111, 55]) [70])) .nil) = "(0o7).F".toUTF8.toList := by
+  decide +kernel
+
 end Tengo.Props.C20
